@@ -672,13 +672,13 @@ def _gen_step(r, g, pool):
         args.update(add=[x for x in cs[1]["out"] if r.random() < 0.3], simplify=r.random() < 0.5)
     elif op == "rename":
         names = cs[0]["in"] + cs[0]["out"]
-        a = r.choice(names)
+        a = r.choice(names or ["ghost"])
         args.update(maps=[[a, r.choice(["fresh_v", a] + names)]])
     elif op == "elim":
         names = cs[0]["in"] + cs[0]["out"]
-        args.update(refine=r.random() < 0.5, elim=r.sample(names, 1), simplify=r.random() < 0.5)
+        args.update(refine=r.random() < 0.5, elim=r.sample(names or ["ghost"], 1), simplify=r.random() < 0.5)
     elif op == "optimize":
-        args.update(expr=r.choice(cs[0]["in"] + cs[0]["out"]), maximize=r.random() < 0.5)
+        args.update(expr=r.choice(cs[0]["in"] + cs[0]["out"] + ["ghost"]), maximize=r.random() < 0.5)
     elif op == "parse":
         args.update(string=r.choice(["2x + 3y <= 4", "|x| <= 2", "x = 2 y", "1 <= x <= 3", "2(x + y) - z <= 0", "x - (y - 1) >= 2"]))
     return op, args
